@@ -526,6 +526,18 @@ func parseTrailer(t *protocol.Trailer, buf []byte) (int, error) {
 		buf = buf[skip:]
 	}
 
+	// A parse that runs out of data is retried from the start once more bytes have arrived, and a
+	// declared trailer is filled only once: look at the values only when the whole trailer section
+	// is there, otherwise a value seen incomplete (its continuation line still missing) would stick.
+	var probe HeaderScanner
+	probe.B = buf
+	probe.DisableNormalizing = t.IsDisableNormalizing()
+	for probe.Next() {
+	}
+	if probe.Err != nil {
+		return 0, probe.Err
+	}
+
 	var s HeaderScanner
 	s.B = buf
 	s.DisableNormalizing = t.IsDisableNormalizing()
